@@ -193,6 +193,14 @@ def c14_args(doc, k, mode):
     groups = list(e.args)
     texts = [src[sp[id(g)][0]:sp[id(g)][1]] for g in groups]
     n = len(groups)
+    try:
+        return c14_args_apply(src, soup, sp, e, node, groups, texts, n, mode)
+    except (AssertionError, TypeError, ValueError, IndexError, AttributeError) as ex:
+        SX.check(False, 'C14:args-raises:' + type(ex).__name__, lambda: {'source': src, 'mode': mode, 'error': repr(ex)[:200]})
+        return ('raised', mode)
+
+
+def c14_args_apply(src, soup, sp, e, node, groups, texts, n, mode):
     if mode == 'reverse':
         order = list(range(n))[::-1]
         node.args.reverse()
